@@ -61,7 +61,7 @@ def run(ctx):
     b = init[0].data['bound']
     rp = [e for e in I.events if e.kind == 'call' and e.data.get('name') == RU + 'get_raw_params']
     ctx.require(rp, 'from_data no longer reads the input parameters')
-    RP = T.mk_call(RU + 'get_raw_params', rp[0].data['args'], rp[0].data['kwargs'])
+    RP = rp[0].data['ret']
     for p, key in (('num_chans', 'num_chans'), ('block_size', 'block_size')):
         ctx.formula('AGREE', f'the new backend takes {p} from the input header', fd, b.get(p, NONE), T.mk_sub(RP, lift(key)),
                     node=init[0].node, construct=f'cls({p}=...)')
